@@ -1383,6 +1383,84 @@ theorem c18_validRel_iff (D : EvData K) (cands : List Cand) (rs : List (Nat × F
 
 end ev
 
+/-! ## 9. the whole pipeline -/
+
+section eventsGen
+set_option linter.unusedSectionVars false
+variable {F : Type} [Add F] [Sub F] [Mul F] [Div F] [Neg F] [LE F] [DecidableLE F] [LT F] [DecidableLT F]
+  [OfNat F 0] [OfNat F 1] [OfNat F 2] [OfScientific F] [Transc F] [Atan2 F]
+
+/-- the complete generator is the list model followed by the post-processing of the rows it returns -/
+theorem C18.generateEv_factor (right : Bool) (cands : List Cand) (cdf : List F) (D : EvData F)
+    (rs : List (Nat × Fld × F × F)) (n : Nat) (us : List F)
+    (k : Nat) (o : List (Nat × List ((Nat × Cand) × F × F × F))) (rest : List F)
+    (h : generateEv right cands cdf D rs n us = some (k, o, rest)) :
+    ∃ out, generate right cands cdf (validRel D cands rs) n us = some (k, out, rest) ∧
+      List.Forall₂ (fun e e' => e'.1 = e.1 ∧ e'.2.map (·.1) = e.2 ∧ ∀ p ∈ e'.2, postProc D p.1.2 = some p.2) out o := by
+  unfold generateEv at h
+  split at h
+  · exact absurd h (by simp)
+  · rename_i k' out rest' hg
+    split at h
+    · exact absurd h (by simp)
+    · rename_i o' hr
+      simp only [Option.some.injEq, Prod.mk.injEq] at h
+      obtain ⟨rfl, rfl, rfl⟩ := h
+      rw [c18_generate_buffer_refines] at hg
+      exact ⟨out, hg, C18.relocDss_spec D out o' hr⟩
+
+end eventsGen
+
+section field
+set_option linter.unusedSectionVars false
+variable {K : Type} [Field K] [LinearOrder K] [IsStrictOrderedRing K] [Transc K] [Atan2 K]
+
+/-- **the whole pipeline, from the inputs to the events handed out.**  Table built in source batches from
+non-negative inputs with some candidate of positive weight, normalised, CDF, deviates in `[0,1)`, complete
+generator (relocation, validity of the relocated event, redraw, buffers).  If it returns, then: it reports the
+number requested, which is the number of events handed out; and every event handed out
+* is handed out for an existing dataset and is a candidate of it, assigned to a source of an existing group,
+* stems from an MC event in the *closed* band of that source and the *closed* energy range of the group,
+* has non-zero source weight, live time and MC weight (zero-weight sources / datasets / events get none),
+* carries the coordinates `signal_event_post_sampling_processing` computes for that very source, and
+* these relocated coordinates satisfy the validity ranges of its dataset. -/
+theorem c18_full_pipeline (hpi : (0 : K) < Transc.pi)
+    (bss : Nat → Nat) (hb : ∀ g, 0 < bss g)
+    (grps : List (Grp K)) (nDs : Nat) (evs : Nat → Nat → List (Ev K)) (lt : Nat → K) (fac : K)
+    (raw : List (Cand × K)) (hraw : tableRawB bss grps nDs evs lt fac = some raw)
+    (hG : ∀ G ∈ grps, 0 < G.hbw ∧ 0 ≤ G.unit ∧ ∀ s ∈ G.srcs, 0 ≤ s.2)
+    (hE : ∀ g j, ∀ e ∈ evs g j, 0 ≤ e.mcw ∧ 0 ≤ e.f) (hlt : ∀ j, 0 ≤ lt j) (hfac : 0 ≤ fac)
+    (hs : 0 < (raw.map (·.2)).sum)
+    (D : EvData K) (rs : List (Nat × Fld × K × K)) (n : Nat) (us : List K) (hu : ∀ u ∈ us, 0 ≤ u ∧ u < 1)
+    (k : Nat) (o : List (Nat × List ((Nat × Cand) × K × K × K))) (rest : List K)
+    (h : generateEv true (raw.map (·.1)) (normCdf (normalise (raw.map (·.2))).2) D rs n us = some (k, o, rest)) :
+    k = n ∧ (o.map (fun e => e.2.length)).sum = n ∧
+    ∀ e ∈ o, ∀ p ∈ e.2, ∃ G src ev L U, e.1 < nDs ∧ p.1.2.ds = e.1 ∧
+      grps[p.1.2.shg]? = some G ∧ G.srcs[p.1.2.src]? = some src ∧ (evs p.1.2.shg e.1)[p.1.2.ev]? = some ev ∧
+      minMax ((evs p.1.2.shg e.1).map (·.s)) = some (L, U) ∧
+      (band src.1 G.hbw L U).1 ≤ ev.s ∧ ev.s ≤ (band src.1 G.hbw L U).2 ∧
+      (∀ lo hi, G.er = some (lo, hi) → lo ≤ ev.e ∧ ev.e ≤ hi) ∧
+      src.2 ≠ 0 ∧ lt e.1 ≠ 0 ∧ ev.mcw ≠ 0 ∧
+      validRel D (raw.map (·.1)) rs p.1.1 = true ∧ postProc D p.1.2 = some p.2 := by
+  rw [c18_table_batched_refines bss hb] at hraw
+  have hw := c18_table_weights_nonneg hpi grps nDs evs lt fac raw hraw hG hE hlt hfac
+  obtain ⟨c1, c2, _⟩ := c18_generate_relocated true _ _ D rs n us k o rest h
+  obtain ⟨out, hg, hf⟩ := C18.generateEv_factor true _ _ D rs n us k o rest h
+  refine ⟨c1, c2, ?_⟩
+  intro e' he' p hp
+  obtain ⟨i, hi, rfl⟩ := List.getElem_of_mem he'
+  have hi' : i < out.length := by rw [hf.length_eq]; exact hi
+  obtain ⟨e1, e2, e3⟩ := (List.forall₂_iff_get.mp hf).2 i hi' hi
+  simp only [List.get_eq_getElem] at e1 e2 e3
+  have hmem : p.1 ∈ out[i].2 := by rw [← e2]; exact List.mem_map_of_mem hp
+  obtain ⟨G, src, ev, L, U, a1, a2, a3, a4, a5, a6, a7, a8, a9, a10, a11, a12, a13⟩ :=
+    c18_injected_from_band grps nDs evs lt fac raw hraw hw hs _ n us hu k out rest hg
+      out[i] (List.getElem_mem hi') p.1 hmem
+  rw [← e1] at a1 a2 a5 a6 a11
+  exact ⟨G, src, ev, L, U, a1, a2, a3, a4, a5, a6, a7, a8, a9, a10, a11, a12, a13, e3 p hp⟩
+
+end field
+
 /-! ## non-vacuity -/
 
 -- the guards of the distribution theorems are met by the design's witness
@@ -1418,3 +1496,36 @@ example : (generate true [⟨0, 1, 0, 0⟩, ⟨0, 2, 0, 0⟩, ⟨0, 3, 0, 0⟩, 
 example : band (1/4 : ℚ) (1/2) (-1/2) (1/2) = (-1/2, 1/2) := by decide +kernel
 -- mu2flux with a non-zero weight sum and two sources
 example : mu2flux (3 : ℚ) 2 [(1/4, 1, 1), (3/4, 2, 1)] = 3/2 * (1/4) + 3/2 * (3/4) * 2 := by decide +kernel
+
+/-! examples for the batched table and the complete generator over ℚ; the transcendental functions are replaced by
+arbitrary rational stand-ins (the structural theorems hold for every `Transc`/`Atan2` instance) -/
+section examplesQ
+local instance : Transc ℚ :=
+  { log := id, log1p := id, exp := id, sqrt := id, sin := id, cos := fun _ => 1, asin := id, acos := id,
+    pi := 3, ofN := fun n => n, ofI := fun n => n }
+local instance : Atan2 ℚ := ⟨fun y _ => y⟩
+
+/-- two groups (3 sources incl. one of weight 0; 1 source with an energy range) × two datasets (one without live
+time, one event of MC weight 0), batch sizes 1 and 2 -/
+example :
+    (tableRawB (fun g => g + 1)
+      [(⟨[(0, 1), (1/4, 2), (1/2, 0)], 1/8, none, 1⟩ : Grp ℚ), ⟨[(-1/4, 1)], 1/4, some (2, 5), 2⟩] 2
+      (fun _ j => if j = 0 then [⟨-1/2, 1, 1, 1⟩, ⟨0, 3, 2, 1⟩, ⟨1/4, 4, 1, 1⟩, ⟨1/2, 6, 1, 1⟩]
+                  else [⟨-1/2, 3, 1, 1⟩, ⟨1/8, 3, 0, 1⟩, ⟨1/2, 3, 1, 1⟩])
+      (fun j => if j = 0 then 10 else 0) 1).map
+      (fun t => t.map (fun cw => ((cw.1.ds, cw.1.ev, cw.1.shg, cw.1.src), cw.2)))
+    = some [((0, 1, 0, 0), 40 / 3), ((0, 2, 0, 1), 40 / 3), ((0, 2, 0, 2), 0), ((0, 3, 0, 2), 0), ((1, 1, 0, 0), 0),
+        ((1, 1, 0, 1), 0), ((1, 2, 0, 2), 0), ((0, 1, 1, 0), 40 / 3), ((1, 1, 1, 0), 0)] := by
+  decide +kernel
+
+/-- the complete generator: the first drawn row is invalid on a stored field and is redrawn; dataset 1 is checked on
+its *relocated* declination; one deviate is left over -/
+example :
+    (generateEv true [⟨0, 1, 0, 0⟩, ⟨0, 2, 0, 1⟩, ⟨1, 0, 0, 0⟩] ([1/4, 1/2, 1] : List ℚ)
+      (⟨fun _ k => some (k, 1/10), fun _ i => some ⟨0, i, 1/2, 1/4⟩, fun _ i _ => some (i : ℚ)⟩ : EvData ℚ)
+      [(0, Fld.other 0, 2, 5), (1, Fld.dec, 0, 1)] 3 [0, 1/3, 3/4, 2/5, 1/10]).map
+      (fun r => (r.1, r.2.1.map (fun e => (e.1, e.2.map (fun p => (p.1.1, p.2.2.1))))))
+    = some (3, [(0, [(1, 273 / 80), (1, 273 / 80)]), (1, [(2, 33 / 80)])]) := by
+  decide +kernel
+
+end examplesQ
